@@ -133,6 +133,19 @@ def check_type(t, quick, acc):
         if not ok:
             acc.violation(f"bytes_value_bytes_not_identity|{site}", {"sec": "codec", "t": t, "b": b.hex()}, f"{b.hex()} -> {v!r} -> {b2.hex()}")
         acc.outcomes[(t, "roundtrip")] += 1
+    if k == "R":
+        # whole numbers given as Python ints are values of a float type too (its admissible types are int and float)
+        for iv in (0, 1, -1, 2, 7, 255, 256, -256, 65536, 1 << 24, -(1 << 24), 10 ** 6):
+            acc.evaluations += 1
+            want = struct.pack("<f" if n == 4 else "<d", float(iv))
+            try:
+                got = H.val2bytes(iv, t)
+                back = H.bytes2val(got, t)
+            except Exception as e:  # noqa: BLE001
+                acc.violation(f"val2bytes_refuses_in_range_value|{site}|int|{type(e).__name__}", {"sec": "nomval", "t": t}, f"{iv!r}: {e}")
+                continue
+            if got != want or back != float(iv):
+                acc.violation(f"int_value_of_float_type_not_encoded_as_that_number|{site}", {"sec": "nomval", "t": t}, f"{iv!r} -> {got.hex()} -> {back!r}")
     # nominal value encodes to zero bytes
     try:
         z = H.val2bytes(H.nomval(t), t)
